@@ -7,6 +7,7 @@ C=$(readlink -f "$1"); L=$2
 WT=/tmp/ver_$L
 OUT=/tmp/ver_$L.result
 rm -rf "$WT"; git -C /repo worktree prune; git -C /repo worktree add -q --detach "$WT" HEAD || exit 3
+mkdir -p "$WT/out/V" && cp -r "$C"/* "$WT/out/V/" && C="$WT/out/V"
 demo() { if [ -f "$C/demo.py" ]; then (cd "$WT" && PYTHONPATH="$WT" timeout 1800 /venv/bin/python "$C/demo.py"); else (cd "$WT" && PYTHONPATH="$WT" WT="$WT" timeout 1800 bash "$C/demo.sh"); fi; }
 {
 echo "== candidate $L ($C)"
